@@ -273,6 +273,28 @@ def common_summaries():
                 outs.append((s, mk_err(build_error(ex, sel, c[1]))))
         return outs
 
+    @reg(r'ResultExt<.*>>::context::<')
+    def res_context(ex, st, fn, argv):
+        r = as_enum(ex, st, argv[0])
+        sel = re.search(r'context::<([^,]+(?:<[^>]*>)?),', fn).group(1)
+        outs = []
+        for (s, c, ok) in ex.fork_on(st, r.disc_bv() == 0, (r, argv[1])):
+            outs.append((s, Enum(0, {0: c[0].payloads.get(0, Agg({0: Unit()}))}, 'Result') if ok else mk_err(build_error(ex, sel, c[1]))))
+        return outs
+
+    @reg(r'ResultExt<.*>>::with_context::<')
+    def res_with_context(ex, st, fn, argv):
+        r = as_enum(ex, st, argv[0])
+        sel = split_top(re.search(r'with_context::<(.*)>$', fn).group(1))[1]
+        outs = []
+        for (s, c, ok) in ex.fork_on(st, r.disc_bv() == 0, (r, argv[1])):
+            if ok:
+                outs.append((s, Enum(0, {0: c[0].payloads.get(0, Agg({0: Unit()}))}, 'Result')))
+            else:
+                e = c[0].payloads.get(1, Agg({0: Unit()})).fields.get(0, Unit())
+                outs.append((s, ('CALL', c[1], [Ref(Cell(e, 'src-err'))], ('custom', lambda ex_, st_, rv, sel=sel: mk_err(build_error(ex_, sel, rv))))))
+        return outs
+
     @reg(r'Snafu(<.*>)?::fail::<|Snafu(<.*>)?::fail$|Snafu::<.*>::fail::<')
     def snafu_fail(ex, st, fn, argv):
         sel = re.match(r'^(?:errors::)?(\w+Snafu)', fn).group(1)
